@@ -35,7 +35,12 @@ PROP = dict(
                            "format:length>8": 30000, "monitor:format-fields-checked": 200000, "monitor:format-lists-checked": 100000,
                            "mpt_node_parse": 40000, "monitor:node_parse-snapshot-nonempty": 15000, "outcome:node_parse-accepted": 10000,
                            "fault:node_parse-bad-limits": 5000, "fault:node_parse-null-file": 5000,
-                           "monitor:node_parse-refused-argument-on-populated-target": 7000}),
+                           "monitor:node_parse-refused-argument-on-populated-target": 7000,
+                           "monitor:getc-error-must-fail": 60000, "monitor:getc-error-target-unchanged": 60000,
+                           "getc-error-reported:comment:enclosed": 2000, "getc-error-reported:comment:separated": 2000,
+                           "getc-error-reported:comment:options": 2000, "getc-error-reported:between-elements:enclosed": 6000,
+                           "getc-error-reported:between-elements:separated": 6000, "getc-error-reported:name:prefix": 3000,
+                           "getc-error-reported:value:prefix": 2000, "getc-error-reported:section-header:separated": 500}),
               dict(name="c08_cxx", memcheck=500, src=["c08_cxx.cpp", "c08_gen.c", "c08_rec.c"], libs=["mpt++", "mptio", "mptplot", "mptcore"], batch=256, lsan=True,
                    floors={"parser::read": 60000, "config_parser::set_format": 60000, "set_format:refused": 200,
                            "outcome:accepted": 15000, "outcome:rejected": 25000,
@@ -63,7 +68,11 @@ PROP = dict(
             "terminator written by mpt_path_add; in SepBinary form first|name|len|nextlen|...",
             "termination is decided as a bound of 8*(len+8) getc+save callbacks per parse",
             "flat families (' ' separated, 'x' with identical start/end character) leave the last section open at end of input",
-            "whether a getc error (-1) must make the parse fail is not asserted (counted as outcome:input-error-not-reported)",
+            "a getc error (-1, repeated on every further call) must make the parse fail and leave the target unchanged at every position "
+            "of a well-formed text in the enclosed, separated and options-only styles, and in the prefix style inside a section, inside a "
+            "name or inside a value that needs an option end character; prefix style at top level between elements / in a comment / in "
+            "a line-terminated value: /repo takes any negative code as end of input - counted only (getc-error-as-end:*); in the "
+            "random-document drivers the outcome of an injected error is only counted (outcome:input-error-not-reported)",
             "merge result of a successful mpt_parse_node into a populated root is only walked, not compared",
             "format description: [0] section start, [1] family, [2] section end, [3] option start, [4] assign, [5] option end (blank = "
             "none), [6..] up to 4 comment characters, blanks, up to 3 escape characters; parts the description is too short for keep "
